@@ -9,12 +9,26 @@ import (
 
 type Version struct {
 	original string
-	elements []element
+	items    []item
 }
 
-type element struct {
-	value    interface{} // string or int
-	isNumber bool
+// itemKind distinguishes the three kinds of items a Maven version is made of
+type itemKind int
+
+const (
+	numberItem itemKind = iota
+	qualifierItem
+	listItem
+)
+
+// item is one node of the parsed version, mirroring Maven's ComparableVersion:
+// a number, a qualifier string, or a nested list of items (opened by a hyphen or
+// by a transition between digits and letters).
+type item struct {
+	kind      itemKind
+	number    string // digits without leading zeros ("" means 0), for numberItem
+	qualifier string // normalized qualifier, for qualifierItem
+	list      []item // for listItem
 }
 
 func (e *Ecosystem) NewVersion(version string) (*Version, error) {
@@ -33,11 +47,9 @@ func (e *Ecosystem) NewVersion(version string) (*Version, error) {
 		return nil, fmt.Errorf("invalid Maven version format: %s", trimmed)
 	}
 
-	elements := parseVersionString(trimmed)
-
 	return &Version{
 		original: version,
-		elements: elements,
+		items:    parseVersionString(trimmed),
 	}, nil
 }
 
@@ -71,210 +83,199 @@ func isValidMavenVersion(version string) bool {
 	return hasDigit || hasKnownQualifier
 }
 
+// Compare compares this version with another Maven version following Maven's
+// ComparableVersion ordering.
 func (v *Version) Compare(other *Version) int {
-	// Compare elements one by one
-	maxLen := len(v.elements)
-	if len(other.elements) > maxLen {
-		maxLen = len(other.elements)
-	}
-
-	for i := 0; i < maxLen; i++ {
-		var elem1, elem2 element
-
-		// Get element or use "null" element if past end
-		if i < len(v.elements) {
-			elem1 = v.elements[i]
-		} else {
-			elem1 = element{value: 0, isNumber: true} // null element
-		}
-
-		if i < len(other.elements) {
-			elem2 = other.elements[i]
-		} else {
-			elem2 = element{value: 0, isNumber: true} // null element
-		}
-
-		cmp := compareElements(elem1, elem2)
-		if cmp != 0 {
-			return cmp
-		}
-	}
-
-	return 0 // versions are equal
+	return compareLists(v.items, other.items)
 }
 
-func compareElements(e1, e2 element) int {
-	// If both are numbers, compare numerically
-	if e1.isNumber && e2.isNumber {
-		n1 := e1.value.(int)
-		n2 := e2.value.(int)
-		if n1 < n2 {
-			return -1
-		}
-		if n1 > n2 {
-			return 1
-		}
-		return 0
-	}
-
-	// If one is number and other is string, number comes first (unless string is empty/release)
-	if e1.isNumber && !e2.isNumber {
-		s2 := e2.value.(string)
-		if s2 == "" {
-			// number vs empty string: empty string (release) is greater
-			return -1
-		}
-		if s2 == "sp" {
-			// number vs sp: sp is greater
-			return -1
-		}
-		// number vs other qualifier: number is greater
-		return 1
-	}
-
-	if !e1.isNumber && e2.isNumber {
-		s1 := e1.value.(string)
-		if s1 == "" {
-			// empty string (release) vs number: empty string is greater
-			return 1
-		}
-		if s1 == "sp" {
-			// sp vs number: sp is greater
-			return 1
-		}
-		// other qualifier vs number: number is greater
-		return -1
-	}
-
-	// Both are strings - compare by qualifier order
-	s1 := e1.value.(string)
-	s2 := e2.value.(string)
-
-	order1, exists1 := qualifierOrder[s1]
-	order2, exists2 := qualifierOrder[s2]
-
-	// Unknown qualifiers come after known qualifiers
-	if !exists1 && !exists2 {
-		// Both unknown - lexicographic comparison
-		if s1 < s2 {
-			return -1
-		}
-		if s1 > s2 {
-			return 1
-		}
-		return 0
-	}
-
-	if !exists1 {
-		return 1 // unknown qualifier comes after known
-	}
-
-	if !exists2 {
-		return -1 // known qualifier comes before unknown
-	}
-
-	// Both are known qualifiers
-	if order1 < order2 {
-		return -1
-	}
-	if order1 > order2 {
-		return 1
-	}
-	return 0
-}
-
+// String returns the original version string
 func (v *Version) String() string {
 	return v.original
 }
 
-// qualifierOrder defines the precedence of Maven qualifiers
-var qualifierOrder = map[string]int{
-	"alpha":     1,
-	"a":         1,
-	"beta":      2,
-	"b":         2,
-	"milestone": 3,
-	"m":         3,
-	"rc":        4,
-	"cr":        4,
-	"snapshot":  5,
-	"":          6, // release version (no qualifier)
-	"ga":        6,
-	"final":     6,
-	"release":   6,
-	"sp":        7,
-}
+// qualifiers lists the well-known qualifiers in ascending order; the empty
+// string is the release itself.
+var qualifiers = []string{"alpha", "beta", "milestone", "rc", "snapshot", "", "sp"}
 
-func parseVersionString(version string) []element {
-	var elements []element
-
-	// Split by common separators and transitions
-	parts := tokenize(version)
-
-	for _, part := range parts {
-		if part == "" {
-			continue
-		}
-
-		// Normalize qualifiers
-		normalized := normalizeQualifier(part)
-
-		// Try to parse as number
-		if num, err := strconv.Atoi(normalized); err == nil {
-			elements = append(elements, element{value: num, isNumber: true})
-		} else {
-			elements = append(elements, element{value: normalized, isNumber: false})
+// comparableQualifier returns a string that orders qualifiers: known ones by
+// their position, unknown ones after all known ones in lexical order.
+func comparableQualifier(q string) string {
+	for i, known := range qualifiers {
+		if q == known {
+			return strconv.Itoa(i)
 		}
 	}
-
-	// Trim trailing null elements (0, "", "final", "ga")
-	elements = trimTrailingNulls(elements)
-
-	return elements
+	return strconv.Itoa(len(qualifiers)) + "-" + q
 }
 
-func tokenize(version string) []string {
-	var tokens []string
-	var current strings.Builder
+var releaseQualifier = comparableQualifier("")
 
-	for i, r := range version {
-		switch {
-		case r == '.' || r == '-':
-			// Add current token if not empty
-			if current.Len() > 0 {
-				tokens = append(tokens, current.String())
-				current.Reset()
+// isNullItem reports whether an item is equivalent to "nothing": the number 0,
+// the release qualifier, or an empty list.
+func isNullItem(it item) bool {
+	switch it.kind {
+	case numberItem:
+		return it.number == ""
+	case qualifierItem:
+		return it.qualifier == ""
+	default:
+		return len(it.list) == 0
+	}
+}
+
+// compareToNull compares an item with a missing item.
+func compareToNull(it item) int {
+	switch it.kind {
+	case numberItem:
+		if it.number == "" {
+			return 0
+		}
+		return 1 // 1.1 > 1
+	case qualifierItem:
+		return strings.Compare(comparableQualifier(it.qualifier), releaseQualifier) // 1-rc < 1, 1-sp > 1
+	default:
+		for _, sub := range it.list {
+			if result := compareToNull(sub); result != 0 {
+				return result
 			}
-		case i > 0:
-			prev := rune(version[i-1])
-			// Check for transitions between digits and letters
-			if (unicode.IsDigit(prev) && unicode.IsLetter(r)) ||
-				(unicode.IsLetter(prev) && unicode.IsDigit(r)) {
-				// Add current token and start new one
-				if current.Len() > 0 {
-					tokens = append(tokens, current.String())
-					current.Reset()
-				}
+		}
+		return 0
+	}
+}
+
+// compareItems compares two items of any kind.
+func compareItems(a, b item) int {
+	switch a.kind {
+	case numberItem:
+		if b.kind != numberItem {
+			return 1 // 1.1 > 1-sp, 1.1 > 1-1
+		}
+		if len(a.number) != len(b.number) {
+			if len(a.number) < len(b.number) {
+				return -1
 			}
-			current.WriteRune(r)
+			return 1
+		}
+		return strings.Compare(a.number, b.number)
+	case qualifierItem:
+		if b.kind != qualifierItem {
+			return -1 // 1.any < 1.1, 1.any < 1-1
+		}
+		return strings.Compare(comparableQualifier(a.qualifier), comparableQualifier(b.qualifier))
+	default:
+		switch b.kind {
+		case numberItem:
+			return -1 // 1-1 < 1.0.x
+		case qualifierItem:
+			return 1 // 1-1 > 1-sp
 		default:
-			current.WriteRune(r)
+			return compareLists(a.list, b.list)
 		}
 	}
-
-	// Add final token
-	if current.Len() > 0 {
-		tokens = append(tokens, current.String())
-	}
-
-	return tokens
 }
 
-func normalizeQualifier(s string) string {
-	lower := strings.ToLower(s)
+// compareLists compares two item lists position by position; a missing item
+// on the shorter side is compared as "nothing".
+func compareLists(a, b []item) int {
+	for i := 0; i < len(a) || i < len(b); i++ {
+		var result int
+		switch {
+		case i >= len(a):
+			result = -compareToNull(b[i])
+		case i >= len(b):
+			result = compareToNull(a[i])
+		default:
+			result = compareItems(a[i], b[i])
+		}
+		if result != 0 {
+			return result
+		}
+	}
+	return 0
+}
 
-	// Handle qualifier shortcuts
-	switch lower {
+// parseVersionString parses a version string into its items the way Maven's
+// ComparableVersion does: '.' separates items, '-' and every transition between
+// digits and letters open a nested list, and trailing "nothing" items are dropped.
+func parseVersionString(version string) []item {
+	version = strings.ToLower(version)
+
+	// lists[0] is the root list and the last entry is the list being filled. A
+	// nested list is always the last item of its parent, so it is attached to
+	// the parent when it is closed.
+	lists := [][]item{nil}
+	add := func(it item) {
+		lists[len(lists)-1] = append(lists[len(lists)-1], it)
+	}
+	open := func() {
+		lists = append(lists, nil)
+	}
+
+	isDigit := false
+	start := 0
+	for i := 0; i < len(version); i++ {
+		c := version[i]
+		switch {
+		case c == '.' || c == '-':
+			if i == start {
+				add(item{kind: numberItem})
+			} else {
+				add(parseItem(isDigit, version[start:i]))
+			}
+			start = i + 1
+			if c == '-' {
+				open()
+			}
+		case unicode.IsDigit(rune(c)):
+			if !isDigit && i > start {
+				// 1.0.0.rc1 = 1.0.0-rc1: a qualifier followed by a number always
+				// starts its own list
+				if len(lists[len(lists)-1]) > 0 {
+					open()
+				}
+				add(parseItem(false, version[start:i]))
+				start = i
+				open()
+			}
+			isDigit = true
+		default:
+			if isDigit && i > start {
+				add(parseItem(true, version[start:i]))
+				start = i
+				open()
+			}
+			isDigit = false
+		}
+	}
+	if len(version) > start {
+		// 1.0.0.rc = 1.0.0-rc: a trailing qualifier always starts its own list
+		if !isDigit && len(lists[len(lists)-1]) > 0 {
+			open()
+		}
+		add(parseItem(isDigit, version[start:]))
+	}
+
+	// close the nested lists innermost first, normalizing each one
+	for len(lists) > 1 {
+		inner := normalizeList(lists[len(lists)-1])
+		lists = lists[:len(lists)-1]
+		add(item{kind: listItem, list: inner})
+	}
+	return normalizeList(lists[0])
+}
+
+// parseItem builds a number or qualifier item from a token.
+func parseItem(isDigit bool, token string) item {
+	if isDigit {
+		return item{kind: numberItem, number: strings.TrimLeft(token, "0")}
+	}
+	return item{kind: qualifierItem, qualifier: normalizeQualifier(token)}
+}
+
+// normalizeQualifier normalizes qualifier aliases to their canonical forms
+func normalizeQualifier(s string) string {
+	switch s {
 	case "a":
 		return "alpha"
 	case "b":
@@ -286,27 +287,18 @@ func normalizeQualifier(s string) string {
 	case "ga", "final", "release":
 		return ""
 	}
-
-	return lower
+	return s
 }
 
-func trimTrailingNulls(elements []element) []element {
-	// Remove trailing elements that are equivalent to "null"
-	for len(elements) > 0 {
-		last := elements[len(elements)-1]
-		if isNullElement(last) {
-			elements = elements[:len(elements)-1]
-		} else {
+// normalizeList removes trailing "nothing" items (0, the release qualifier,
+// empty lists), looking past nested lists that are not empty.
+func normalizeList(items []item) []item {
+	for i := len(items) - 1; i >= 0; i-- {
+		if isNullItem(items[i]) {
+			items = append(items[:i], items[i+1:]...)
+		} else if items[i].kind != listItem {
 			break
 		}
 	}
-	return elements
-}
-
-func isNullElement(e element) bool {
-	if e.isNumber {
-		return e.value.(int) == 0
-	}
-	str := e.value.(string)
-	return str == "" || str == "final" || str == "ga" || str == "release"
+	return items
 }
